@@ -85,6 +85,13 @@ C10Monitor(e, L, rm) ==
       \* ... also through verification: a certificate signed by EVERY key of the key set, passed to
       \* the real verifyFinalization, is not final when the base is below the minimum
       /\ (BaseL(L, rm, G, e.t, TRUE) < MinNodes => ~Get(e, "final", FALSE))
+      \* "two": a certificate of m signers verified on one node under the non-final threshold (the
+      \* aggregator's check) and the final one, in both orders.  The final verdict does not depend on
+      \* what was verified before, needs the final threshold, and is never given below the minimum.
+      /\ (Has(e, "two") =>
+            /\ e.two.finalA = e.two.finalB
+            /\ ((e.two.finalA \/ e.two.finalB) => e.two.m >= e.thr)
+            /\ (BaseL(L, rm, G, e.t, TRUE) < MinNodes => (~e.two.finalA /\ ~e.two.finalB)))
 
 C10Full(e, L, rm) ==
     /\ e.res = "ok"
@@ -95,6 +102,13 @@ C10Full(e, L, rm) ==
     /\ (Has(e, "final") =>
           /\ e.certres = (IF Len(e.keys) > 0 THEN "ok" ELSE "err")
           /\ e.final = (Len(e.keys) > 0 /\ e.thr <= Len(e.keys)))
+    /\ LET thrN == ThresholdL(L, rm, G, e.t, FALSE)  k == Len(e.keys)  mm == IF thrN < e.thr THEN thrN ELSE e.thr IN
+         IF thrN # e.thr /\ mm <= k /\ mm >= 1
+         THEN /\ Has(e, "two")
+              /\ e.two.m = mm /\ e.two.thrN = thrN
+              /\ e.two.finalA = (mm >= e.thr) /\ e.two.finalB = (mm >= e.thr)
+              /\ e.two.nfA = (mm >= thrN) /\ e.two.nfB = (mm >= thrN)
+         ELSE ~Has(e, "two")
 
 C10 ==
     /\ IsEvent("C10")
@@ -224,6 +238,10 @@ ViewsFull(e) ==
     /\ NormView(e.view) = ViewOf(H, G, e.t)
     /\ LET k == CustodianAt(C, e.t) IN
          e.cust.k = k /\ (k > 0 => (e.cust.ts = C[k] /\ e.cust.nodes = 7))
+    /\ (Has(e, "reread") =>
+          /\ e.rereadres = "ok" /\ Len(e.reread) = 2 /\ Len(e.relist) = 2
+          /\ \A p \in 1..2 : /\ Len(e.relist[p]) = Len(C)
+                               /\ \A i \in 1..Len(C) : e.relist[p][i].k = i /\ e.relist[p][i].ts = C[i] /\ e.relist[p][i].nodes = 7)
 
 \* C11: the answer for t is the answer given before (whatever was appended after t, in whatever
 \* order the questions came, warm or cold)
@@ -232,6 +250,14 @@ ViewsMonitor(e) ==
     /\ (e.t \in DOMAIN memo.c => NormCust(e) = memo.c[e.t])
     \* served from the cache or not, the custodian and the timestamp reported belong to one update
     /\ ((e.custres = "ok" /\ e.cust.k >= 1 /\ e.cust.k <= Len(C)) => e.cust.ts = C[e.cust.k])
+    \* "reread" / "relist": the harness scribbles over every custodian answer it got (ReadCustodian and
+    \* ListCustodianUpdates) and asks again: the repeated answers, served from the in-memory cache, are
+    \* the first ones
+    /\ (Has(e, "reread") =>
+          /\ \A i \in 1..Len(e.reread) :
+                /\ e.reread[i].k = e.cust.k /\ e.reread[i].ts = e.cust.ts /\ e.reread[i].nodes = e.cust.nodes
+                /\ e.reread[i].sum = e.reread[1].sum
+          /\ \A i \in 1..Len(e.relist) : e.relist[i] = e.relist[1])
 
 ViewsEv ==
     /\ IsEvent("Views")
